@@ -1796,6 +1796,11 @@ def c20_gen(rng):
     model = rng.choice(['default', 'amr', 'amr', 'noop'])
     text = corr.gen_stream_text(rng, wf=maybe(rng, 0.85))
     case = {'opts': opts, 'model': model, 'input': text}
+    if maybe(rng, 0.03):
+        # a constant spelled like the name --make-variables will choose (known finding F23)
+        c = rng.choice(['foo', 'bar', 'go-01'])
+        case['input'] = '(x / %s %s %s)' % (c, rng.choice([':ARG0-of', ':ARG1', ':mod']), c[0])
+        opts['makeVariables'] = ['pre', 'j']
     if maybe(rng, 0.15):
         case['more_files'] = [corr.gen_stream_text(rng, ngraphs=rng.choice([1, 1, 2]), wf=True) for _ in range(rng.choice([1, 2]))]
     return case
@@ -1837,6 +1842,28 @@ def c20_domain(text, m, opts):
             if not c02_wf_layout(t2.node, m):
                 return None
     return trees
+
+
+def c20_captures(trees, m, opts):
+    """known finding F23: --make-variables gives some node a name that a constant of the same graph
+    already has (reset_variables does not avoid the constants), so the constant is read as a
+    re-entrancy on the second pass"""
+    o = dict(opts)
+    fmt = ops.fmt_string(o.pop('makeVariables'))
+    for t in trees:
+        try:
+            before = penman.parse(c20_pipeline([t], m, dict(o, triples=False))[0])
+        except Exception:  # noqa: BLE001
+            continue
+        old = {v for v, _ in before.nodes()}
+        consts = set()
+        for _, (role, tgt) in before.walk():
+            if role != '/' and isinstance(tgt, str) and tgt.partition('~')[0] not in old:
+                consts.add(tgt.partition('~')[0])
+        before.reset_variables(fmt)
+        if consts & {v for v, _ in before.nodes()}:
+            return True
+    return False
 
 
 def c20_pipeline(trees, m, opts):
@@ -1928,6 +1955,8 @@ def c20_check(case, known=None):
     if r2['out'] != out1:
         if opts.get('reifyEdges') and opts.get('reifyAttributes') and inv_reifiable_attr(text, m):
             return 'KNOWN:F18'
+        if opts.get('makeVariables') and c20_captures(trees, m, opts):
+            return 'KNOWN:F23'
         return f'not a fixed point: second pass gives {r2["out"]!r} from {out1!r}'
     # several FILE inputs: the run equals the runs of the single files, in order; fed back as ONE
     # stream the output is reproduced except for known finding F22 (no blank line at file boundaries)
